@@ -1,6 +1,6 @@
 PID = "C17"
 WORKER = "w_c17"
-HEADER = "From Coq Require Import List ZArith QArith Qcanon.\nFrom Dimod Require Import Base.Util Model.Poly Model.Comb Gen.Gen_Gates Model.Gates Model.Knap Model.MultCircuit Model.Qap Model.Magic Model.ChkC17.\nImport ListNotations."
+HEADER = "From Coq Require Import List ZArith QArith Qcanon.\nFrom Dimod Require Import Base.Util Model.Poly Model.Comb Gen.Gen_Gates Model.Gates Model.Knap Model.MultCircuit Model.Qap Model.Magic Model.Sat Model.ChkC17.\nImport ListNotations."
 CHECK_FN = "check"
 N_QUICK = 1600
 N_THOROUGH = 30000
@@ -12,6 +12,7 @@ RULE = ("gates (and/or/xor/halfadder/fulladder) with random distinct labels (int
         "multiplication_circuit(n, m), n,m <= 3: minimum over the auxiliaries for every (a, b, p); n,m <= 6: coefficients against the wiring model; "
         "combinations(n|labels, k) BINARY/SPIN, all assignments, rejected k; independent_set / maximum_independent_set / "
         "maximum_weight_independent_set with repeated edges, partial and repeated node lists, strength / strength_multiplier; "
+        "random_nae3sat / random_2in4sat / random_kmcsat (n <= 6, planted or not, labels, seeds incl. 0): BQM against the clauses replayed from the seed, all spin assignments; "
         "magic_square(n <= 4, power 1/2): constraints against Model/Magic.v, check_feasible on magic / Latin / random integer squares; "
         "quadratic_assignment (n <= 3, symmetric distances, list / array input) against Model/Qap.v and the documented cost on every placement; "
         "knapsack / bin packing / multi-knapsack CQMs (random_* with seeds and direct constructors) on all assignments of small "
@@ -37,5 +38,5 @@ PARTIAL = ["C17_multiplication_circuit_partial: arithmetic correctness (all gate
            "not the documented cost (C17_qap_asymmetric_refuted, corpus/C17/qap_asymmetric.json); asymmetric matrices are kept out of the random stream (QAP_ASYMMETRIC in w_c17.py)",
            "magic_square: constraints tied coefficient-wise and on integer assignments; only necessity of the uniqueness constraint is a "
            "theorem (C17_magic_uniqueness_necessary); it is not sufficient (C17_magic_uniqueness_not_sufficient_refuted: a Latin square is feasible)",
-           "satisfiability generators: not covered",
+           "satisfiability generators: the clause draws are replayed from the seed in the worker (numpy is an oracle); theorems cover the assembly and the clause energies only",
            "random generators: monitored only"]
